@@ -251,7 +251,7 @@ pub fn main(args: Args) -> i32 {
         subjects.push(Subject { name: format!("d1#{}:failing_in_include", n), templates: vec![("main".into(), "a{% include 'inc' %}b".into()), ("inc".into(), format!("{}{{{{ [] | first | int // 0 }}}}", g1.program(n).source()))], main: "main".into() });
     }
     let g2 = gen::Gen::new(gen::Opts { depth: 2, max_programs: u64::MAX, multi_template: false, loop_controls: true });
-    let stride2 = args.tier.pick(97u64, 5u64);
+    let stride2 = args.tier.pick(97u64, 1u64);
     let mut n = 0;
     while n < g2.size() {
         subjects.push(Subject { name: format!("d2#{}:single", n), templates: vec![("main".into(), g2.program(n).source())], main: "main".into() });
